@@ -38,11 +38,14 @@ REQUIRED = {
         'cases-with-gap': 500,
         'loads-via-cli-with-bom': 10,
         'cases-fixed-offset-zone': 100,
+        'cases-before-or-straddling-1970': 100,
+        'gaps-without-a-grid-instant-inside': 50,
     }
     for tier in ('quick', 'thorough')
 }
 MIN_NONTRIVIAL = {'quick': 300, 'thorough': 5000}
 T0 = datetime.datetime(2021, 3, 1)
+ORIGINS = [datetime.datetime(2021, 3, 1), datetime.datetime(2021, 3, 1), datetime.datetime(1969, 12, 31, 20), datetime.datetime(1958, 7, 1), datetime.datetime(2037, 12, 1)]
 ZONES = {'UTC': 0, 'Etc/GMT-7': 7 * 3600, 'Etc/GMT+3': -3 * 3600, 'Etc/GMT-12': 12 * 3600}
 
 
@@ -61,6 +64,12 @@ def gen(rng):
         if len(zt) > 3:
             i = rng.randint(1, len(zt) - 2)
             k = rng.randint(1, 3)
+            if zstep < rstep and rng.random() < 0.5:
+                # a single missing off-grid reading: a gap of the source record
+                # with no grid instant strictly inside it
+                offgrid = [j for j in range(1, len(zt) - 1) if (zt[j] - r0) % rstep != 0]
+                if offgrid:
+                    i, k = rng.choice(offgrid), 1
             del zt[i:i + k]
             gapped = True
     if len(zt) < 2:
@@ -75,16 +84,18 @@ def gen(rng):
             rng.shuffle(L)
             flags['shuffled'] = True
     zone = rng.choice(['UTC', 'UTC', 'Etc/GMT-7', 'Etc/GMT+3', 'Etc/GMT-12'])
-    return {'kind': 'load', 'rstep': rstep, 'zstep': zstep, 'rain': rain, 'et': et, 'z': z, 'tz': zone, 'flags': flags}
+    return {'kind': 'load', 'rstep': rstep, 'zstep': zstep, 'rain': rain, 'et': et, 'z': z, 'tz': zone, 'flags': flags,
+            'origin': rng.randrange(len(ORIGINS))}
 
 
-def text_of(rows, header='Datetime,value'):
-    return header + '\n' + ''.join('{},{!r}\n'.format((T0 + datetime.timedelta(seconds=t)).strftime(data.FMT), v) for t, v in rows)
+def text_of(rows, header='Datetime,value', t0=None):
+    t0 = t0 or T0
+    return header + '\n' + ''.join('{},{!r}\n'.format((t0 + datetime.timedelta(seconds=t)).strftime(data.FMT), v) for t, v in rows)
 
 
-def to_epoch(sec, zone):
-    """epoch of local naive time T0 + sec in a fixed-offset zone (own arithmetic)"""
-    return int((T0 + datetime.timedelta(seconds=sec) - data.EPOCH0).total_seconds()) - ZONES[zone]
+def to_epoch(sec, zone, t0=None):
+    """epoch of local naive time t0 + sec in a fixed-offset zone (own arithmetic)"""
+    return int(((t0 or T0) + datetime.timedelta(seconds=sec) - data.EPOCH0).total_seconds()) - ZONES[zone]
 
 
 def check_case(ctx, case, via='function', index=0):
@@ -93,7 +104,10 @@ def check_case(ctx, case, via='function', index=0):
     rec = ctx.rec
     rec.case()
     zone = case['tz']
-    p, e, z = text_of(case['rain']), text_of(case['et']), text_of(case['z'])
+    t0 = ORIGINS[case.get('origin', 0)]
+    p, e, z = text_of(case['rain'], t0=t0), text_of(case['et'], t0=t0), text_of(case['z'], t0=t0)
+    if t0.year < 1971:
+        rec.hit('cases-before-or-straddling-1970')
     if via == 'function':
         connection = sqlite3.connect(':memory:')
         try:
@@ -129,9 +143,9 @@ def check_case(ctx, case, via='function', index=0):
                 return
             rec.violation('valid-input-refused:' + desc['type'], {'exception': desc}, case, 'load')
             return
-        rain = [(to_epoch(t, zone), v) for t, v in case['rain']]
-        et = [(to_epoch(t, zone), v) for t, v in case['et']]
-        zz = [(to_epoch(t, zone), v) for t, v in case['z']]
+        rain = [(to_epoch(t, zone, t0), v) for t, v in case['rain']]
+        et = [(to_epoch(t, zone, t0), v) for t, v in case['et']]
+        zz = [(to_epoch(t, zone, t0), v) for t, v in case['z']]
         findings, stats = oracle_load.walk(connection, rain, et, zz, case['rstep'], zone)
         rec.hit('loads-accepted-and-walked')
         if via == 'cli':
